@@ -29,6 +29,15 @@ noncomputable instance instNumOpsReal : NumOps ℝ where
   pi := Real.pi
 
 namespace NumOps
+/-! the parent-structure projections of the `ℝ` instance are Mathlib's own instances; rewriting them to
+    their canonical form keeps `ring` / `norm_num` / `field_simp` working on generated terms -/
+theorem real_toAdd : (instNumOpsReal.toAdd) = Real.instAdd := rfl
+theorem real_toSub : (instNumOpsReal.toSub) = Real.instSub := rfl
+theorem real_toMul : (instNumOpsReal.toMul) = Real.instMul := rfl
+theorem real_toNeg : (instNumOpsReal.toNeg) = Real.instNeg := rfl
+theorem real_toDiv : (instNumOpsReal.toDiv) = (inferInstance : Div ℝ) := rfl
+theorem real_toOfScientific : (instNumOpsReal.toOfScientific) = (inferInstance : OfScientific ℝ) := rfl
+
 @[simp] theorem real_ofN (n : Nat) : (NumOps.ofN n : ℝ) = (n : ℝ) := rfl
 @[simp] theorem real_nabs (x : ℝ) : NumOps.nabs x = |x| := rfl
 @[simp] theorem real_nmax (x y : ℝ) : NumOps.nmax x y = max x y := rfl
@@ -48,5 +57,10 @@ namespace NumOps
 @[simp] theorem real_sel (c : Bool) (a b : ℝ) : NumOps.sel c a b = if c then a else b := rfl
 @[simp] theorem real_isclose (a b r t : ℝ) : NumOps.isclose a b r t = decide (|a - b| ≤ t + r * |b|) := rfl
 end NumOps
+
+/-- rewrite the instance projections of generated terms at `ℝ` into Mathlib's canonical instances -/
+macro "numops_norm" : tactic =>
+  `(tactic| try simp only [NumOps.real_toAdd, NumOps.real_toSub, NumOps.real_toMul, NumOps.real_toNeg,
+      NumOps.real_toDiv, NumOps.real_toOfScientific] at *)
 
 end PPV
